@@ -21,6 +21,10 @@ pub fn udp_socket(
         use std::os::unix::prelude::FromRawFd;
 
         tracing::trace!("udp_socket local: {:?} remote: {:?}", local, remote);
+        // sharing is wanted for a given port (the sessions of a listener answer from its address).
+        // With port 0 the option would let the kernel choose a port that another socket with the
+        // option already holds, and the two sessions would then receive each other's datagrams
+        let reuse = local.port() != 0;
         let local: SockaddrStorage = local.into();
         let remote: Option<SockaddrStorage> =
             remote.filter(|x| !x.ip().is_unspecified()).map(Into::into);
@@ -30,7 +34,9 @@ pub fn udp_socket(
             SockFlag::empty(),
             SockProtocol::Udp,
         )?;
-        setsockopt(fd, ReuseAddr, &true)?;
+        if reuse {
+            setsockopt(fd, ReuseAddr, &true)?;
+        }
         if transparent {
             #[cfg(target_os = "linux")]
             {
